@@ -464,6 +464,33 @@ static void live_load_preserves(hwloc_const_bitmap_t S, const char *components, 
   hwloc_bitmap_free(a);
 }
 
+/* the same from a second thread: the loading thread is bound to S while the main thread stays bound to M, so "the caller's
+ * binding" and "the process binding" are different sets (seeded change C10-x86-restore-reuses-restrict-set: the x86 backend
+ * restored what it had computed for RESTRICT_TO_CPUBINDING instead of what the calling thread was bound to) */
+struct tload { const cpu_set_t *m; unsigned long flags; cpu_set_t after; int rc; };
+static void *tload_body(void *arg)
+{
+  struct tload *tl = arg; raw_setaff(tl->m);
+  hwloc_topology_t t; hwloc_topology_init(&t); hwloc_topology_set_flags(t, tl->flags); tl->rc = hwloc_topology_load(t); hwloc_topology_destroy(t);
+  raw_getaff(&tl->after);
+  return NULL;
+}
+static void live_load_preserves_thread(hwloc_const_bitmap_t S, hwloc_const_bitmap_t M, const char *components, unsigned long flags)
+{
+  cpu_set_t m, mm, mafter; mask_of_cpuset(&m, S); mask_of_cpuset(&mm, M); raw_setaff(&mm);
+  if (components) setenv("HWLOC_COMPONENTS", components, 1); else unsetenv("HWLOC_COMPONENTS");
+  nlog = 0; nlog_total = 0; seam_stub = 0; seam_on = 1; MC.transitions++;
+  struct tload tl; memset(&tl, 0, sizeof(tl)); tl.m = &m; tl.flags = flags; tl.rc = -9;
+  pthread_t th; if (pthread_create(&th, NULL, tload_body, &tl) == 0) pthread_join(th, NULL);
+  seam_on = 0; unsetenv("HWLOC_COMPONENTS");
+  hwloc_bitmap_t a = hwloc_bitmap_alloc(); cpuset_of_mask(a, &tl.after);
+  if (!hwloc_bitmap_isequal(a, S)) { char *s = bm(S), *g = bm(a); mc_violation("c10.live.load-changes-binding", "%s :: the loading thread was bound to {%s} before hwloc_topology_load (rc=%d), {%s} after", mc_case_text(), s, tl.rc, g); free(s); free(g); }
+  else MC.states++;
+  raw_getaff(&mafter); cpuset_of_mask(a, &mafter);
+  if (!hwloc_bitmap_isequal(a, M)) { char *s = bm(M), *g = bm(a); mc_violation("c10.live.load-changes-other-thread", "%s :: the main thread was bound to {%s} before another thread loaded a topology, {%s} after", mc_case_text(), s, g); free(s); free(g); }
+  hwloc_bitmap_free(a);
+}
+
 static void stage_live(void)
 {
   cpu_set_t orig; raw_getaff(&orig);
@@ -509,7 +536,9 @@ static void stage_live(void)
   /* load leaves the binding alone */
   {
     static const char *COMP[] = { NULL, "linux,stop", "x86,stop", "linux,x86,stop", "x86,linux,stop" };
-    static const unsigned long FL[] = { 0, HWLOC_TOPOLOGY_FLAG_INCLUDE_DISALLOWED, HWLOC_TOPOLOGY_FLAG_IS_THISSYSTEM | HWLOC_TOPOLOGY_FLAG_THISSYSTEM_ALLOWED_RESOURCES, HWLOC_TOPOLOGY_FLAG_DONT_CHANGE_BINDING };
+    static const unsigned long FL[] = { 0, HWLOC_TOPOLOGY_FLAG_INCLUDE_DISALLOWED, HWLOC_TOPOLOGY_FLAG_IS_THISSYSTEM | HWLOC_TOPOLOGY_FLAG_THISSYSTEM_ALLOWED_RESOURCES, HWLOC_TOPOLOGY_FLAG_DONT_CHANGE_BINDING,
+                                        HWLOC_TOPOLOGY_FLAG_RESTRICT_TO_CPUBINDING | HWLOC_TOPOLOGY_FLAG_IS_THISSYSTEM, HWLOC_TOPOLOGY_FLAG_RESTRICT_TO_MEMBINDING | HWLOC_TOPOLOGY_FLAG_IS_THISSYSTEM };
+    const unsigned NFL = sizeof(FL) / sizeof(FL[0]);
     int lim = n > 16 ? 16 : n;
     for (int a = 0; a < lim; a++) for (int b = a; b <= lim; b++) {
       /* singletons (b == a), pairs, and once the whole set (b == lim, a == 0) */
@@ -517,10 +546,19 @@ static void stage_live(void)
       hwloc_bitmap_zero(S);
       if (b == lim) hwloc_bitmap_copy(S, allowed); else { hwloc_bitmap_set(S, pos[a]); hwloc_bitmap_set(S, pos[b]); }
       if (!MC.thorough && b != a && b != lim && (b - a) != 1 && (a + b) % 5) continue;   /* quick: all singletons, neighbours and a fifth of the other pairs */
-      for (unsigned c = 0; c < 5; c++) for (unsigned f = 0; f < 4; f++, idx++) {
+      for (unsigned c = 0; c < 5; c++) for (unsigned f = 0; f < NFL; f++, idx++) {
         if (!mc_mine(idx) || mc_deadline()) continue;
         char *s = bm(S); int r = mc_case("live load bound to {%s} components=%s flags=0x%lx", s, COMP[c] ? COMP[c] : "(default)", FL[f]); free(s);
         if (r) live_load_preserves(S, COMP[c], FL[f]);
+      }
+      /* from a second thread, the main thread being bound to all the allowed CPUs or to the other ones: singletons (and the
+       * whole set) only */
+      if (b == a || b == lim) for (int mv = 0; mv < 2; mv++) for (unsigned c = 0; c < 5; c++) for (unsigned f = 0; f < NFL; f++, idx++) {
+        if (!mc_mine(idx) || mc_deadline()) continue;
+        hwloc_bitmap_t M = hwloc_bitmap_dup(allowed); if (mv) { hwloc_bitmap_andnot(M, M, S); if (hwloc_bitmap_iszero(M)) { hwloc_bitmap_free(M); continue; } }
+        char *s = bm(S), *ms = bm(M); int r = mc_case("live load from a second thread bound to {%s} (main thread bound to {%s}) components=%s flags=0x%lx", s, ms, COMP[c] ? COMP[c] : "(default)", FL[f]); free(s); free(ms);
+        if (r) live_load_preserves_thread(S, M, COMP[c], FL[f]);
+        hwloc_bitmap_free(M);
       }
     }
   }
